@@ -5,8 +5,8 @@ TypesQuick == {ET("ok", FALSE, 0, 0, 0, 0), ET("ok", FALSE, 0, 1, 0, 0), ET("ok"
                ET("fail", FALSE, 0, 0, 0, 0), ET("fail", FALSE, 0, 1, 1, 0), ET("fail", FALSE, 0, 0, 2, 0), ET("fail2", FALSE, 0, 0, 1, 0), ET("view", FALSE, 0, 1, 0, 0), ET("view0", FALSE, 0, 1, 0, 0),
                ET("plain", FALSE, 1, 0, 0, 0), ET("plain", FALSE, 0, 0, 0, 1),
                ET("ok", TRUE, 0, 1, 0, 0), ET("fail", TRUE, 0, 0, 1, 0)}
-TypesSmall == {ET("ok", FALSE, 0, 0, 0, 0), ET("ok", FALSE, 0, 2, 0, 0), ET("ok", FALSE, 1, 0, 0, 1),
-               ET("fail", FALSE, 0, 1, 1, 0), ET("fail2", FALSE, 0, 0, 1, 0), ET("view0", FALSE, 0, 1, 0, 0), ET("plain", FALSE, 1, 0, 0, 1), ET("fail", TRUE, 0, 1, 0, 0)}
+TypesSmall == {ET("ok", FALSE, 0, 0, 0, 0), ET("ok", FALSE, 0, 1, 0, 0), ET("ok", FALSE, 1, 0, 0, 1),
+               ET("fail", FALSE, 0, 1, 1, 0), ET("view0", FALSE, 0, 1, 0, 0), ET("fail", TRUE, 0, 1, 0, 0)}
 NoNext == FALSE /\ UNCHANGED vars
 EmitScn == pc = "done" => PrintT(<<"SCN", ToJson([concurrent |-> concurrent, elems |-> elems, sched |-> sched])>>)
 =============================================================================
